@@ -171,6 +171,13 @@ func execC20(b []byte) vx.Verdict {
 	if !strsEqual(cert.DNSNames, s.DNS) || !ipsEqual(cert.IPAddresses, ips) {
 		return vx.Violation("cert-names", "C20/cert-dns-ip-differ", "certificate DNS %q IPs %v differ from requested %q %v", cert.DNSNames, cert.IPAddresses, s.DNS, ips)
 	}
+	for i, t := range s.IPs {
+		// an address requested in dotted IPv4 form must be a 4-octet iPAddress name (RFC 5280), not its IPv6-mapped form;
+		// addresses requested in the mapped form are not constrained either way
+		if !bytes.Contains([]byte(t), []byte(":")) && len(cert.IPAddresses[i]) != 4 {
+			return vx.Violation("cert-names", "C20/ipv4-not-4-octets", "IPv4 address %s is encoded with %d octets", t, len(cert.IPAddresses[i]))
+		}
+	}
 	got, err := utils.ReceptorNames(cert.Extensions)
 	if err != nil {
 		return vx.Violation("cert-names", "C20/cert-ids-unreadable", "ReceptorNames on the issued certificate failed: %v (requested ids %q, lengths %v)", err, s.NodeIDs, lens(s.NodeIDs))
